@@ -91,16 +91,31 @@ def allDeclClaims : List Task → List Claim
   | [] => []
   | t :: ts => declClaims t ++ allDeclClaims ts
 
+/-- Two inbound channels of ONE task (different names) name the same global alias. Each gets an
+    endpoint of its own at launch (distinct ports / fresh IPC paths), so two different endpoints
+    claim the alias — whatever the task's local bind map kept of it. -/
+def AliasTwice (t : Task) : Prop :=
+  ∃ c ∈ t.inbound, ∃ d ∈ t.inbound, c.global.isEmpty = false ∧ c.global = d.global ∧ c.name ≠ d.name
+
+instance (t : Task) : Decidable (AliasTwice t) := by
+  unfold AliasTwice; exact inferInstance
+
 /-- Spec of one CONFIGURE outcome. `SpecW false false` is the full-strength
-    property; the two flags select the weakenings that hold of the code:
-    `emptyTarget` — the bind clause only for inbound channels without a target;
+    property; the two flags select weakenings:
+    `emptyTarget` — the bind clause only for inbound channels without a target
+                    (what holds of the code: finding inbound_target_still_advertised);
     `locAliases`  — alias claims as they appear in the local bind maps (one per
-                    task and alias) instead of as declared (one per channel). -/
+                    task and alias) instead of as declared (one per channel): all
+                    that held of the code before configureTasks checked the
+                    declarations of each task (`legacyCfg`); the code as it is meets
+                    the clause as declared.
+    A rejection is justified by an alias that is claimed more than once — by the
+    local bind maps of two tasks, or by two channels of one task. -/
 def SpecW (emptyTarget locAliases : Bool) (tasks : List Task) : Except Err (List Props) → Prop
   | .ok res => res.length = tasks.length ∧ Matched emptyTarget tasks res ∧ Passthrough tasks res ∧
       ¬ Unmatched tasks ∧ clash (if locAliases then claims tasks else allDeclClaims tasks) = false
   | .error .unmatched => Unmatched tasks
-  | .error .aliasConflict => shared (claims tasks) = true
+  | .error .aliasConflict => shared (claims tasks) = true ∨ ∃ t ∈ tasks, AliasTwice t
 
 instance (a b : Bool) (tasks : List Task) (r : Except Err (List Props)) : Decidable (SpecW a b tasks r) := by
   unfold SpecW; split <;> exact inferInstance
@@ -114,15 +129,20 @@ abbrev Spec (tasks : List Task) (r : Except Err (List Props)) : Prop := SpecW fa
 def validHost (h : String) : Bool := !h.isEmpty && h != "*"
 
 /-- Postcondition of the launch (makeTaskForMesosResources) for one task: every
-    inbound channel has a local endpoint of the kind allocated for it, and every
+    inbound channel has a local endpoint of the kind allocated for it, every
     key of the local bind map is an inbound channel's name or alias carrying that
-    channel's endpoint. -/
+    channel's endpoint, and every declared alias has an entry. -/
 def launchOk (t : Task) : Bool :=
   t.inbound.all (fun c => match Assoc.get t.loc c.name with
     | some e => freshFor c e
     | none => false) &&
   t.loc.all (fun kv => t.inbound.any fun c =>
-    decide (entryOf kv c) && decide (Assoc.get t.loc c.name = some kv.2))
+    decide (entryOf kv c) && decide (Assoc.get t.loc c.name = some kv.2)) &&
+  -- every declared alias has an entry (the loop writes `bindMap["::"+ch.Global]` for every channel)
+  t.inbound.all (fun c => c.global.isEmpty || (Assoc.get t.loc (aliasKey c.global)).isSome) &&
+  -- the keys can be told apart: no channel is NAMED like an alias key (configureTasks would take
+  -- the entry of such a channel for an alias)
+  t.inbound.all (fun c => !isAlias c.name)
 
 /-- Channel names are unique within a task (bind and connect together). -/
 def namesDistinct (t : Task) : Prop :=
@@ -140,10 +160,11 @@ def keysSane (cs : List Claim) : Bool :=
 def noInboundTarget (tasks : List Task) : Bool :=
   tasks.all fun t => t.inbound.all fun c => c.target.isEmpty
 
-/-- Excluded hypothesis of `C13_alias_declared_partial` (finding
-    `alias_redefined_within_task`): every declared alias is advertised with the
-    declaring channel's own endpoint (fails when two channels of one task name
-    the same alias: the launch keeps the last one). -/
+/-- Hypothesis of `C13_alias_declared_partial` (finding `alias_redefined_within_task`,
+    fixed): every declared alias is advertised with the declaring channel's own
+    endpoint (fails when two channels of one task name the same alias: the launch
+    keeps the last one — such a task is now rejected by configureTasks; for every
+    other task the launch postcondition implies it, `advertised_of_not_twice`). -/
 def aliasesAdvertised (t : Task) : Prop :=
   ∀ c ∈ t.inbound, c.global.isEmpty = false →
     ∀ e, Assoc.get t.loc c.name = some e → ∃ kv ∈ t.loc, kv.1 = aliasKey c.global ∧ kv.2 = e
